@@ -738,6 +738,8 @@ func (ex *Exec) callExternal(c *ast.CallExpr, o *types.Func, args []Term, argTyp
 		if args[0].Sort.Kind == KSeq {
 			return []Term{ufun("strJoin", SString, args[0], args[1])}
 		}
+	case "strings.Fields":
+		return []Term{ufun("strFields", ex.U.SortOf(sig.Results().At(0).Type()), args[0])}
 	case "strings.Split":
 		ss := ex.U.SortOf(sig.Results().At(0).Type())
 		r := ufun("strSplit", ss, args[0], args[1])
